@@ -8,6 +8,7 @@ Families
   ww_band       WhalleyWilmott(EuropeanOption)(input) and .width() on a (log-moneyness, maturity, volatility,
                 previous hedge) grid x cost x risk aversion x strike x call/put; oracle = textbook
                 Black-Scholes delta/gamma + band in mpmath (ww_ref); zero cost => bitwise the BlackScholes module.
+  ww_cost_history  one WhalleyWilmott module while the underlier's cost is changed (all cost sequences <= 2 / 3).
   ww_width_fn   functional.ww_width on a (gamma, spot, cost, a) grid, scalar and tensor parameters.
   ww_struct     WhalleyWilmott on the other option classes: output = previous hedge clamped to
                 delta +- (3 c Gamma^2 S/(2a))^(1/3) with delta, Gamma taken from the module's own pricer.
@@ -315,6 +316,71 @@ def ww_band(ctx, block):
 
 
 @family
+def ww_cost_history(ctx, block):
+    """ONE WhalleyWilmott module re-used while the cost rate of the underlier is changed (a cost sweep):
+    after every assignment stock.cost = c the module must hedge with the band for the CURRENT cost
+    (c = 0: bitwise the BlackScholes delta).  Every sequence of <= depth costs; reference and tolerance as in
+    ww_band."""
+    from pfhedge.instruments import BrownianStock, EuropeanOption
+    from pfhedge.nn import BlackScholes, WhalleyWilmott
+    dtype = DT[block["dtype"]]
+    eps, tiny = torch.finfo(dtype).eps, torch.finfo(dtype).tiny
+    call, strike, a = block["call"], block["strike"], block["a"]
+    cases = _ww_cases(block)
+    x = torch.tensor(cases, dtype=dtype)
+    xl = x.to(torch.float64).tolist()
+    histories = block.get("histories")
+    if histories is None:
+        histories = [list(h) for n in range(1, block["depth"] + 1)
+                     for h in itertools.product(block["costs"], repeat=n)]
+    site = "WhalleyWilmott.forward"
+    refs = {}
+    for hist in histories:
+        stock = BrownianStock(cost=hist[0], dtype=dtype)
+        deriv = EuropeanOption(stock, call=call, strike=strike)
+        m = WhalleyWilmott(deriv, a=a)
+        for step, cost in enumerate(hist):
+            if step > 0:
+                stock.cost = cost
+                ctx.add("transitions", 1)
+            with torch.no_grad():
+                out = m(x)
+                bs = BlackScholes(deriv)(x[..., :-1]) if cost == 0 else None
+            ol = out[:, 0].to(torch.float64).tolist()
+            changed = step > 0 and cost != hist[step - 1]
+            ctx.tick(len(cases), nontrivial=len(cases) if changed else 0)
+            tag = "cost_history:" + ">".join("zero" if c == 0 else "positive" for c in hist[:step + 1])
+            for i in range(len(cases)):
+                s_, t_, v_, prev = xl[i]
+                key = (s_, t_, v_, cost)
+                if key not in refs:
+                    refs[key] = ww_ref.ww_european(s_, t_, v_, 0.0, strike, cost, a, call)
+                r = refs[key]
+                new, region = ww_ref.band_move(prev, r["delta"], r["width"])
+                d1sq = 0 if t_ * v_ == 0 else float(r["d1"]) ** 2
+                w = float(r["width"])
+                floor = float(ww_ref.half_width(1.0, r["spot"], cost * tiny, a)) if cost > 0 else 0.0
+                tol = eps * (16 + w * (4 * d1sq + 32)) + floor
+                if ol[i] != ol[i] or abs(mp.mpf(ol[i]) - new) > tol:
+                    ctx.violation(site, f"{tag}:{region}",
+                                  f"one WhalleyWilmott module after the underlier's cost went through {hist[:step + 1]}: "
+                                  f"input {xl[i]} -> {ol[i]!r}, band for the current cost {cost}: "
+                                  f"{float(r['delta']):.12g} +- {w:.12g}", observed=ol[i], expected=float(new),
+                                  block={"call": call, "strike": strike, "a": a, "dtype": block["dtype"],
+                                         "cases": [cases[i]], "histories": [hist[:step + 1]]})
+                    break
+            if bs is not None and not torch.equal(out, bs):
+                i = int((out != bs).reshape(-1).nonzero()[0])
+                ctx.violation(site, f"{tag}:zero_cost_not_bs_delta",
+                              f"cost history {hist[:step + 1]} (now 0): output {ol[i]!r} != BlackScholes delta "
+                              f"{float(bs.reshape(-1)[i])!r} at {xl[i]}", observed=ol[i], expected=float(bs.reshape(-1)[i]),
+                              block={"call": call, "strike": strike, "a": a, "dtype": block["dtype"],
+                                     "cases": [cases[i]], "histories": [hist[:step + 1]]})
+            ctx.outcome((tuple(hist[:step + 1]), round(sum(ol), 9)))
+        ctx.add("traces_validated_against_impl", 1)
+
+
+@family
 def ww_width_fn(ctx, block):
     """(3 c G^2 S/(2a))^(1/3): five roundings before the power, the power itself ~2 ulp -> 8 eps relative."""
     import pfhedge.nn.functional as F
@@ -525,6 +591,17 @@ def bilerp(ctx, block):
                 return
             order = [(a, b, c, d, w1, w2) for a in xs for b in xs for c in xs for d in xs]
             results += list(zip(order, out.reshape(-1).to(torch.float64).tolist()))
+    elif form in ("float_w1_tensor_w2", "tensor_w1_float_w2"):
+        # one weight a python number, the other a tensor (packed over its values)
+        fi = 4 if form == "float_w1_tensor_w2" else 5
+        groups = {}
+        for c in cases:
+            groups.setdefault(c[fi], []).append(c)
+        for wf, grp in groups.items():
+            cols = [torch.tensor([c[j] for c in grp], dtype=dtype) for j in range(4)]
+            wt = torch.tensor([c[9 - fi] for c in grp], dtype=dtype)
+            out = F.bilerp(*cols, wf, wt) if fi == 4 else F.bilerp(*cols, wt, wf)
+            results += list(zip(grp, out.to(torch.float64).tolist()))
     else:
         groups = {}
         for c in cases:
@@ -711,6 +788,10 @@ def run(ctx):
     else:
         for b in blocks:
             ctx.run("ww_band", b)
+    for call, strike, a in ((True, 1.0, 1.0), (False, 2.0, 0.5)):
+        ctx.run("ww_cost_history", {"call": call, "strike": strike, "a": a, "dtype": "float64", "costs": costs,
+                                    "depth": ctx.pick(2, 3), "s": [-0.2, -0.05, 0.03, 0.15], "t": [0.1, 1.0],
+                                    "v": [0.2, 0.5], "prev": [-0.5, 0.0, 0.3, 0.5, 0.7, 1.5]})
     gammas = [0.0, 0.5, 2.0, 7.5, -1.5]
     for form in ("float_params", "float_params_default_a", "tensor_params"):
         for dtype in ("float64", "float32"):
@@ -743,8 +824,10 @@ def run(ctx):
         ws = [-0.5, 0.0, 0.25, 0.5, 0.75, 1.0, 1.5]
     ctx.alphabet("bilerp values", xs)
     ctx.alphabet("bilerp weights", ws)
-    for form in ("float_w", "tensor_w", "broadcast"):
+    for form in ("float_w", "tensor_w", "broadcast", "float_w1_tensor_w2", "tensor_w1_float_w2"):
         for dtype in ("float64", "float32"):
+            if dtype == "float32" and form.endswith("_w2") and form != "tensor_w":
+                continue
             ctx.run("bilerp", {"form": form, "dtype": dtype, "xs": xs, "ws": ws})
     # ---------------- Box-Muller
     u1 = [0.0, 1e-12, 1e-10, 1e-7, 1e-5, 0.125, 0.5, 0.75, 1.0]
